@@ -473,7 +473,7 @@ fn cli_argv(rep: &Report) {
                 if seq.len() >= maxlen.max(3) && ei == 0 {
                     continue; // the longest vectors under the populated environment only
                 }
-                let cmd = Cmd { args: seq.iter().map(|&i| vocab[i].clone()).collect(), env: env.clone(), stdin: proc::StdinSpec::Null, stdout_file: None, stdout_closed_pipe: false, stdin_path: None, fsize_limit: None, pty: None };
+                let cmd = Cmd { args: seq.iter().map(|&i| vocab[i].clone()).collect(), env: env.clone(), stdin: proc::StdinSpec::Null, stdout_file: None, stdout_closed_pipe: false, stdin_path: None, fsize_limit: None, pty: None, stdin_splits: vec![], stdout_nonblock_slow: None, env_bytes: vec![], stdout_reader_leaves_after: None };
                 let out = proc::run(&cmd, &sc.0);
                 count.fetch_add(1, Ordering::Relaxed);
                 completed_len.lock().unwrap()[seq.len()] += 1;
